@@ -80,6 +80,23 @@ def run(ctx):
                     r0["debug"] = bool(made % 2)
                 reqs.append(r0)
                 infos.append((n, fam, Af, cond))
+    # matrices whose decomposition is EXACT in binary floating point (identity, diagonals of powers of four, small integer B^T B with a
+    # unit triangular B): the inversion error is exactly 0, so every tolerance >= 0 - tolerance 0 included - lets the result through
+    for n in range(1, 9):
+        for kind in ("identity", "pow4", "unit_triangular"):
+            if kind == "identity":
+                A = [[1.0 if i == j else 0.0 for j in range(n)] for i in range(n)]
+            elif kind == "pow4":
+                A = [[4.0 ** rng.randint(-6, 6) if i == j else 0.0 for j in range(n)] for i in range(n)]
+            else:
+                B = [[(float(rng.randint(-2, 2)) if j < i else (1.0 if i == j else 0.0)) for j in range(n)] for i in range(n)]
+                A = [[sum(B[i][k] * B[j][k] for k in range(n)) for j in range(n)] for i in range(n)]
+            Af = [[Fraction(x) for x in r] for r in A]
+            cond = X.cond_inf(Af)
+            if cond is None or cond > 10 ** 10:
+                continue
+            reqs.append({"op": "decomp", "n": n, "a": gen.flat_bits(A), "tol": f2b(0.0), "debug": False})
+            infos.append((n, "exact_" + kind + "_tol0", Af, cond))
     impl = run_harness(reqs)
     model = run_driver(reqs)
     for r, a, m, (n, fam, Af, cond) in zip(reqs, impl, model, infos):
